@@ -31,8 +31,13 @@ func verifBed12s() []*Bed12 {
 				FeatStrand: []seq.Strand{seq.Plus, seq.Minus, seq.None}[i%3],
 				ThickStart: coords[i%len(coords)], ThickEnd: coords[(i+1)%len(coords)],
 			}
-			if i%2 == 0 {
+			switch {
+			case i%2 == 0:
 				b.Rgb = color.RGBA{R: uint8(i), G: uint8(7 * i), B: uint8(255 - i), A: 0xff}
+			case i%6 == 1:
+				b.Rgb = color.RGBA{A: 0xff} // opaque black, what the reader makes of "0,0,0"; the zero value is what it makes of "0"
+			case i%6 == 3:
+				b.Rgb = color.RGBA{B: uint8(i), A: 0xff}
 			}
 			if i%3 == 0 {
 				b.BlockCount, b.BlockSizes, b.BlockStarts = 1, []int{s}, []int{e}
